@@ -156,7 +156,7 @@ func (r *Run) Logf(f string, a ...any) {
 	r.steps++
 	line := fmt.Sprintf("%06d t=%s %s", r.steps, r.simNow(), s)
 	r.logHash = H(r.logHash, line)
-	if len(r.log) >= 4000 {
+	if len(r.log) >= logCap {
 		r.log = r.log[1:]
 	}
 	r.log = append(r.log, line)
@@ -198,6 +198,12 @@ func (r *Run) Failed() bool {
 func (r *Run) KeepItem(i int) bool { return r.Keep == nil || r.Keep[i] }
 
 var verbose = os.Getenv("OXSIM_VERBOSE") != ""
+var logCap = func() int {
+	if os.Getenv("OXSIM_DUMPLOG") != "" {
+		return 400000
+	}
+	return 4000
+}()
 
 // Result is what a worker reports per run.
 type Result struct {
@@ -269,6 +275,20 @@ func ExecBubble(t *testing.T, prop string, seed uint64, tier string, keep map[in
 	res.Inconclusive = r.Inconclusive
 	sp := append([]string(nil), r.SigParts...)
 	res.Sig = fmt.Sprintf("%016x", H(0, strings.Join(sp, "|")))
+	if sutMem != nil {
+		sutMem.mu.Lock()
+		if !res.OK {
+			if f, err := os.Create(fmt.Sprintf("/tmp/sutlog-%s-%d.txt", prop, seed)); err == nil {
+				f.WriteString(strings.Join(sutMem.buf, "\n"))
+				f.Close()
+			}
+		}
+		sutMem.buf = nil
+		sutMem.mu.Unlock()
+	}
+	if d := os.Getenv("OXSIM_DUMPLOG"); d != "" && d == fmt.Sprint(seed) {
+		_ = os.WriteFile(fmt.Sprintf("/tmp/evlog-%s-%d.txt", prop, seed), []byte(strings.Join(r.log, "\n")), 0o644)
+	}
 	if !res.OK || verbose {
 		n := len(r.log)
 		if n > 400 {
@@ -279,8 +299,31 @@ func ExecBubble(t *testing.T, prop string, seed uint64, tier string, keep map[in
 	return res
 }
 
+// memLog captures the system's log in memory (no syscalls, so the schedule is not perturbed).
+type memLog struct {
+	mu  sync.Mutex
+	buf []string
+}
+
+func (m *memLog) Write(p []byte) (int, error) {
+	m.mu.Lock()
+	if len(m.buf) > 20000 {
+		m.buf = m.buf[10000:]
+	}
+	m.buf = append(m.buf, strings.TrimRight(string(p), "\n"))
+	m.mu.Unlock()
+	return len(p), nil
+}
+
+var sutMem *memLog
+
 func init() {
 	// oxia logs through slog and zerolog; keep the simulator quiet and fast.
+	if os.Getenv("OXSIM_SUTLOG") == "mem" {
+		sutMem = &memLog{}
+		slog.SetDefault(slog.New(slog.NewTextHandler(sutMem, &slog.HandlerOptions{Level: slog.LevelInfo})))
+		return
+	}
 	if os.Getenv("OXSIM_SUTLOG") == "" {
 		slog.SetDefault(slog.New(slog.NewTextHandler(io.Discard, &slog.HandlerOptions{Level: slog.Level(math.MaxInt32)})))
 	} else {
